@@ -335,7 +335,60 @@ def t_constmerge_equivalence(n=300):
     return k + 1
 
 
-TESTS = [t_proxy_differential, t_shims, t_exploration_exhaustive, t_refutation_and_vacuity,
+def t_arrbuf_slices(n=60):
+    """Array-backed buffer: copies, long slices and slice assignment agree with a real bytearray on
+    random concrete scripts (every cell compared), and a copy does not alias its source."""
+    import random
+    from symx.containers import ArrBuf
+    rng = random.Random(7)
+    checked = 0
+    for _ in range(n):
+        size = rng.choice([70, 130, 300])
+        ref = bytearray(rng.randrange(256) for _ in range(size))
+        buf = ArrBuf("t", size)
+        for i, v in enumerate(ref):
+            buf[i] = v
+        other_ref = bytearray(rng.randrange(256) for _ in range(size))
+        other = ArrBuf("o", size)
+        for i, v in enumerate(other_ref):
+            other[i] = v
+        for _ in range(6):
+            op = rng.randrange(5)
+            a = rng.randrange(-size, size)
+            b = rng.randrange(-size, size + 20)
+            sl = slice(rng.choice([None, a]), rng.choice([None, b]))
+            lo, hi, _st = sl.indices(size)
+            if op == 0 and hi - lo > 64:
+                src_sl = slice(lo, hi)
+                buf[sl] = other[src_sl]
+                ref[sl] = other_ref[src_sl]
+            elif op == 1:
+                c = buf.copy()
+                c[0] = (ref[0] + 1) & 0xFF          # must not reach buf
+            elif op == 2 and hi - lo > 64:
+                view = buf[sl]
+                want = ref[sl]
+                assert len(view) == len(want)
+                for k in rng.sample(range(len(want)), 5):
+                    got = z3.simplify(z3.Select(view.arr, z3.BitVecVal(k, core.W))).as_long()
+                    assert got == want[k], ("slice", sl, k, got, want[k])
+                    checked += 1
+            elif op == 3:
+                buf[:] = other.copy()
+                ref[:] = other_ref
+            else:
+                k = rng.randrange(size)
+                v = rng.randrange(256)
+                buf[k] = v
+                ref[k] = v
+        for k in range(size):
+            got = z3.simplify(z3.Select(buf.arr, z3.BitVecVal(k, core.W))).as_long()
+            assert got == ref[k], ("cell", k, got, ref[k])
+            checked += 1
+    return checked
+
+
+TESTS = [t_arrbuf_slices, t_proxy_differential, t_shims, t_exploration_exhaustive, t_refutation_and_vacuity,
          t_memory_and_cut_log, t_no_int_subclass, t_swallowed_exception_monitor, t_constmerge_equivalence]
 
 
